@@ -238,8 +238,16 @@ def partition(draw, n, kmin=1, kmax=None):
 @st.composite
 def relabelling(draw, k, force_reversing=False):
     """Injective map from labels 1..k to integers; returns list m with m[l-1] = new label."""
-    kind = draw(st.sampled_from(["rev", "neg", "zero", "arb", "large-adjacent", "perm", "revarb", "around-zero", "frac"])) if not force_reversing \
-        else draw(st.sampled_from(["rev", "revarb", "neg", "large-adjacent", "perm", "frac"]))
+    kind = draw(st.sampled_from(["rev", "neg", "zero", "arb", "large-adjacent", "perm", "revarb", "around-zero", "frac", "narrow-extremes", "huge-adjacent"])) if not force_reversing \
+        else draw(st.sampled_from(["rev", "revarb", "neg", "large-adjacent", "perm", "frac", "narrow-extremes", "huge-adjacent"]))
+    if kind == "narrow-extremes":     # labels spread over the whole range of an 8-bit integer (callers may store them as int8: see narrow_labels)
+        pool = [-128, 127, -100, 100, -127, 126, 0, -1, 1, 64, -64, 2, 3, 5, 90, -90]
+        if k <= len(pool):
+            return list(draw(st.permutations(pool)))[:k]
+        kind = "arb"
+    if kind == "huge-adjacent":       # 64-bit identifiers far above 2^53 that differ by one (indistinguishable after a cast to float)
+        off = draw(st.sampled_from([2 ** 60, 2 ** 62, 2 ** 54, -2 ** 61]))
+        return [off + v for v in draw(st.permutations(list(range(1, k + 1))))]
     if kind == "neg":                 # all labels negative (max label + 1 is below the number of modules)
         return list(draw(st.permutations(list(range(-k - draw(st.integers(0, 5)), 0))[:k])))
     if kind == "around-zero":         # -1, 0, 1, ...
@@ -259,6 +267,18 @@ def relabelling(draw, k, force_reversing=False):
     if kind == "revarb":
         return sorted(vals, reverse=True)
     return vals
+
+
+def narrow_labels(lab):
+    """the label vector in the narrowest signed integer type that holds it (as a caller who saves memory would store it)"""
+    lab = np.asarray(lab)
+    if lab.dtype.kind != "i" or lab.size == 0:
+        return lab
+    for dt in (np.int8, np.int16, np.int32):
+        ii = np.iinfo(dt)
+        if lab.min() >= ii.min and lab.max() <= ii.max:
+            return lab.astype(dt)
+    return lab
 
 
 def seeds():
